@@ -6,13 +6,64 @@ package agent
 
 //@ guarded_by Agent.started mu
 
+// idOf(x): the node id an invalid-peer entry names: the id of the enode URI, or the entry itself when it does not parse
+//@ pure idOf(x string) string = ite(uf("ethnode.ParseNodeURI", 1, x) == nil, uf("ethnode.(*NodeURI).ID", 0, uf("ethnode.ParseNodeURI", 0, x)), x)
+//@ pure ownKind(a *Agent) string = ite(a.nodeInfo.IsFullNode, "", uf("ethnode.(NodeKind).String", 0, a.nodeInfo.Kind))
+// nodeUntouched: no peer operation was performed on the node
+//@ pure nodeUntouched() bool = rmlen == old(rmlen) && dclen == old(dclen) && cnlen == old(cnlen) && trlen == old(trlen)
+// droppedLogsKeepPrefix / connectLogKeepsPrefix: logs are append-only
+//@ pure dropLogsAppendOnly() bool = (forall j int :: 0 <= j && j < old(rmlen) ==> rmarg[j] == old(rmarg[j])) && (forall j int :: 0 <= j && j < old(dclen) ==> dcarg[j] == old(dcarg[j]))
+//@ pure connectLogAppendOnly() bool = forall j int :: 0 <= j && j < old(cnlen) ==> cnarg[j] == old(cnarg[j])
+// dropped(L, n): the first n entries of L were un-trusted and disconnected, in order, and nobody else
+//@ pure dropped(L []string, n int) bool = rmlen == old(rmlen) + n && dclen == old(dclen) + n
+//@        && (forall j int :: old(rmlen) <= j && j < old(rmlen) + n ==> rmarg[j] == idOf(L[j - old(rmlen)]))
+//@        && (forall j int :: old(dclen) <= j && j < old(dclen) + n ==> dcarg[j] == idOf(L[j - old(dclen)]))
+
+// samePrefix(L, P): L starts with the elements of P (quantified over positions of L's backing array, which keeps the trigger free of arithmetic)
+//@ pure samePrefix(L []string, P []string) bool = len(L) >= len(P) && (forall k int :: off(L) <= k && k < off(L) + len(P) ==> elems(L)[k] == elems(P)[k - off(L) + off(P)])
+
+//@ func (*Agent).AddPeers
+//@ property C18
+//@ requires !held(a.mu)
+//@ ensures [unlocked]    !held(a.mu) && a.started == old(a.started)
+//@ ensures [one-request] peercalls == old(peercalls) + 1 && poolcalls == old(poolcalls) + 1
+//@ ensures [asks-for-num-of-own-kind] lastPeerReq.Num == num && lastPeerReq.Kind == ownKind(a)
+//@ ensures [only-connects] rmlen == old(rmlen) && dclen == old(dclen) && trlen == old(trlen) && cnlen >= old(cnlen) && connectLogAppendOnly()
+//@                          && (forall j int :: old(cnlen) <= j && j < cnlen ==> cnarg[j] == lastPeers[j - old(cnlen)].URI)
+//@ ensures [connects-all-returned] err == nil ==> cnlen == old(cnlen) + len(lastPeers) || cnlen == old(cnlen)
+//@ ensures [bounded]      cnlen <= old(cnlen) + len(lastPeers) || cnlen == old(cnlen)
+//@ modifies poolcalls, lastPoolCall, peercalls, lastPeerReq, lastPeers, cnlen, cnarg
+//@ loop 0 invariant [log] cnlen == old(cnlen) + rangeidx && connectLogAppendOnly()
+//@                          && (forall j int :: old(cnlen) <= j && j < cnlen ==> cnarg[j] == nodes[j - old(cnlen)].URI)
+//@ loop 0 invariant [frame] !held(a.mu) && a.started == old(a.started) && peercalls == old(peercalls) + 1 && poolcalls == old(poolcalls) + 1 && nodes == lastPeers
+//@                          && lastPeerReq.Num == num && lastPeerReq.Kind == ownKind(a)
+
 //@ func (*Agent).UpdatePeers
 //@ property C18 C20
-//@ trusted body not yet under contract; Start relies on the frame only
 //@ requires !held(a.mu)
-//@ ensures [unlocked] !held(a.mu) && a.started == old(a.started)
-//@ ensures [calls]    poolcalls >= old(poolcalls)
-//@ modifies poolcalls, lastPoolCall
+//@ ensures [unlocked] {C18 C20} !held(a.mu) && a.started == old(a.started)
+//@ ensures [calls]    {C18 C20} poolcalls >= old(poolcalls)
+//@ ensures [failed-keepalive-changes-nothing] (poolcalls == old(poolcalls) || !lastUpdateOK) ==> nodeUntouched() && err != nil && peercalls == old(peercalls)
+//@ ensures [append-only] dropLogsAppendOnly() && connectLogAppendOnly() && trlen == old(trlen)
+//@ ensures [drops-pool-declared-invalid] poolcalls > old(poolcalls) && lastUpdateOK ==>
+//@            rmlen >= old(rmlen) + len(lastInvalid) && dclen >= old(dclen) + len(lastInvalid)
+//@            && (forall j int :: old(rmlen) <= j && j < old(rmlen) + len(lastInvalid) ==> rmarg[j] == idOf(lastInvalid[j - old(rmlen)]))
+//@            && (forall j int :: old(dclen) <= j && j < old(dclen) + len(lastInvalid) ==> dcarg[j] == idOf(lastInvalid[j - old(dclen)]))
+//@ ensures [non-strict-drops-nobody-else] poolcalls > old(poolcalls) && lastUpdateOK && !a.StrictPeers ==>
+//@            rmlen == old(rmlen) + len(lastInvalid) && dclen == old(dclen) + len(lastInvalid)
+//@ ensures [requests-exactly-the-shortfall] poolcalls > old(poolcalls) && lastUpdateOK ==>
+//@            (a.NumHosts - len(lastActive) > 0 ==> peercalls == old(peercalls) + 1 && lastPeerReq.Num == a.NumHosts - len(lastActive) && lastPeerReq.Kind == ownKind(a))
+//@            && (a.NumHosts - len(lastActive) <= 0 ==> peercalls == old(peercalls) && cnlen == old(cnlen))
+//@ ensures [connects-what-the-pool-returned] forall j int :: old(cnlen) <= j && j < cnlen ==> cnarg[j] == lastPeers[j - old(cnlen)].URI
+//@ modifies poolcalls, lastPoolCall, lastUpdateOK, lastUpdate, lastInvalid, lastActive, peercalls, lastPeerReq, lastPeers, rmlen, rmarg, dclen, dcarg, cnlen, cnarg
+//@ loop 1 invariant [list] update.ActivePeers == lastActive && samePrefix(update.InvalidPeers, lastInvalid)
+//@ loop 2 invariant [log]  dropped(update.InvalidPeers, rangeidx) && dropLogsAppendOnly()
+//@ loop 2 invariant [list] samePrefix(update.InvalidPeers, lastInvalid)
+//@ loop 2 invariant [list-current] rangeidx < len(lastInvalid) ==> update.InvalidPeers[rangeidx] == lastInvalid[rangeidx]
+//@ loop 2 invariant [pool-prefix] (forall j int :: old(rmlen) <= j && j < rmlen && j < old(rmlen) + len(lastInvalid) ==> rmarg[j] == idOf(lastInvalid[j - old(rmlen)]))
+//@                         && (forall j int :: old(dclen) <= j && j < dclen && j < old(dclen) + len(lastInvalid) ==> dcarg[j] == idOf(lastInvalid[j - old(dclen)]))
+//@ loop 2 invariant [frame] !held(a.mu) && a.started == old(a.started) && peercalls == old(peercalls) && lastUpdateOK && poolcalls == old(poolcalls) + 1
+//@                         && cnlen == old(cnlen) && trlen == old(trlen) && connectLogAppendOnly()
 
 //@ func (*Agent).Start
 //@ property C20 C10
